@@ -22,6 +22,7 @@ FIXED = [
  ("KF-C05-1", "C05", "56e9529", "C05.no_handlers", "global probes A then B activated, A deactivated first: B stops receiving events and A's handler comes back for good when B is deactivated"),
  ("KF-C05-3", "C05", "1ae940f", "C05.original_code", "a probe whose activation is refused (second selector names a variable that does not exist) leaves the functions of its selectors instrumented although no probe is active"),
  ("KF-C05-4", "C05", "a513fcd", "C05.counters", "a probe whose selector is refused part-way (f > len > x: len is not a Python function; or a function without source code) leaves the functions named before it instrumented for good"),
+ ("KF-C05-6", "C05", "131b3dc", "C05.no_handlers", "a probe activated from inside a call of an instrumented function (by the function or by a subscriber) goes deaf when that call returns although it is still active; one deactivated inside such a call comes back"),
  ("KF-C05-2", "C05", "0f26a75", "C05.original_code", "a probe whose pipeline ends in a reduction over no events (min() without error handler) raises on deactivation and stays installed: functions instrumented, handlers and global_probes entry left"),
  ("KF-C17-2", "C17", "0f26a75", "C17.silent_outside", "after a deactivation during which completing a stage raised, the probe's other stages keep receiving events of later calls"),
  ("KF-C06-1", "C06", "3c5a8d8", "C06.meta", "a function that falls off the end of its body produces #enter and #exit but no #value"),
